@@ -53,6 +53,7 @@ type plJob struct {
 	Data      []plDgram `json:"data"`      // then these, interleaved by the scheduler
 	Lazy      int       `json:"lazy"`      // the consumer takes a message with probability 1/Lazy per move
 	Retire    int       `json:"retire"`    // dynamic workers: how many workers are told to quit during the data phase
+	Free      bool      `json:"free"`      // no gates: the workers run in parallel as in the collector (used under the race detector)
 	Mirror    string    `json:"mirror"`    // "": mirroring off; "on": enabled, the copies are taken and given back like the mirror workers do; "full": enabled and the mirror queue is full
 }
 
@@ -659,6 +660,108 @@ func plRun(job plJob) (res plResult) {
 	return
 }
 
+// plRunFree: the real workers running freely and in parallel (no hooks, GOMAXPROCS 8), fed like the receive loop feeds
+// them; everything they publish is collected.  The judge compares the payloads with the stand-alone ones.
+func plRunFree(job plJob) (res plResult) {
+	res.ID = job.ID
+	runtime.GOMAXPROCS(8)
+	logger = log.New(ioutil.Discard, "", 0)
+	opts = &Options{Logger: logger}
+	mCache = ipfix.GetCache("")
+	mCacheNF9 = netflow9.GetCache("")
+	ad := plAdapter(job.Proto, job.UDPSize)
+	for _, d := range job.Data {
+		res.Expected = append(res.Expected, ad.alone(job.Templates, d))
+		res.Class = append(res.Class, ad.class(job.Templates, d))
+	}
+	want := 0
+	for _, e := range res.Expected {
+		if e != nil {
+			want++
+		}
+	}
+	if job.Mirror != "" && ad.mirror != nil {
+		defer ad.mirror(job.Mirror)()
+	}
+	for n := 0; n < job.Workers; n++ {
+		ad.start(make(chan struct{}))
+	}
+	feed := func(d plDgram) {
+		b := ad.pool.Get().([]byte)
+		body := plBytes(d.Buf)
+		if len(body) > cap(b) {
+			body = body[:cap(b)]
+		}
+		b = b[:cap(b)]
+		copy(b, body)
+		ad.send(&net.UDPAddr{IP: plBytes(d.Exp), Port: 4000}, b[:len(body)])
+	}
+	idle := func(limit time.Duration) {
+		t0 := time.Now()
+		for ad.qlen() > 0 && time.Since(t0) < limit {
+			time.Sleep(time.Millisecond)
+		}
+		time.Sleep(30 * time.Millisecond)
+	}
+	for _, t := range job.Templates {
+		feed(t)
+		idle(5 * time.Second)
+	}
+	for len(ad.mq) > 0 {
+		<-ad.mq
+	}
+	var mu sync.Mutex
+	done := make(chan struct{})
+	go func() {
+		for {
+			select {
+			case p := <-ad.mq:
+				mu.Lock()
+				res.Payloads = append(res.Payloads, append([]byte{}, p...))
+				mu.Unlock()
+			case <-done:
+				return
+			}
+		}
+	}()
+	mdone := make(chan struct{})
+	if job.Mirror == "on" && ad.mdrain != nil {
+		go func() { // the mirror workers: take the copy, give the buffer back
+			for {
+				select {
+				case <-mdone:
+					return
+				default:
+				}
+				for _, b := range ad.mdrain() {
+					ad.pool.Put(b[:job.UDPSize])
+				}
+				time.Sleep(200 * time.Microsecond)
+			}
+		}()
+	}
+	for _, d := range job.Data {
+		feed(d)
+	}
+	t0 := time.Now()
+	for time.Since(t0) < 20*time.Second {
+		mu.Lock()
+		n := len(res.Payloads)
+		mu.Unlock()
+		if n >= want && ad.qlen() == 0 {
+			break
+		}
+		time.Sleep(2 * time.Millisecond)
+	}
+	time.Sleep(50 * time.Millisecond) // anything published in excess shows up now
+	close(done)
+	close(mdone)
+	mu.Lock()
+	defer mu.Unlock()
+	res.Decoded = ad.decoded()
+	return
+}
+
 func TestVerifPipeline(t *testing.T) {
 	in, out := os.Getenv("VERIF_JOBS"), os.Getenv("VERIF_OUT")
 	if in == "" {
@@ -673,7 +776,12 @@ func TestVerifPipeline(t *testing.T) {
 	if err := json.Unmarshal(b, &job); err != nil {
 		t.Fatal(err)
 	}
-	res := plRun(job)
+	var res plResult
+	if job.Free {
+		res = plRunFree(job)
+	} else {
+		res = plRun(job)
+	}
 	fo, err := os.Create(out)
 	if err != nil {
 		t.Fatal(err)
